@@ -28,7 +28,7 @@ T = {
          "Rocq proofs + vm_compute refutation witnesses + flat-stretch enumeration on the implementation with known-finding classification"),
  "C09": ("Theorems: MACD/PPO histogram = line - signal for every number type (no slack); Minimum <= Maximum for any order; over exact reals SD, MAD >= 0 and never NaN, BB lower <= average <= upper for multiplier >= 0, SMA/WMA within the range of their window, EMA within the range of its history, TrueRange and ATR >= 0 for low <= high, KeltnerChannel lower <= average <= upper, ChandelierExit long <= window maximum and short >= window minimum. Float slack: predicate on the implementation (partial).",
          "Rocq proofs (convexity, sums of squares) + bit-exact correspondence + ordering predicates on implementation outputs"),
- "C14": ("Theorems over exact reals, for every stream: SMA, WMA, SD, MAD, EMA, MACD, TrueRange, ATR, KeltnerChannel and Bollinger levels scale with c; SMA, EMA, WMA, KC and BB levels shift by d while SD, MAD, MACD, TrueRange, ATR are unchanged; Minimum and Maximum commute with every strictly increasing map; FastStochastic is unchanged by x -> c*x+d (c>0); PPO, ROC, EfficiencyRatio, CCI, MFI are unchanged by c>0 including their division-by-zero cases; for every number type whose negation reverses the comparison Maximum(x) = -Minimum(-x) exactly. SlowStochastic, ChandelierExit, OBV and the float tolerances: pairwise comparison of implementation runs (partial).",
+ "C14": ("Theorems over exact reals, for every stream: SMA, WMA, SD, MAD, EMA, MACD, TrueRange, ATR, KeltnerChannel and Bollinger levels scale with c; SMA, EMA, WMA, KC and BB levels shift by d while SD, MAD, MACD, TrueRange, ATR are unchanged; Minimum and Maximum commute with every strictly increasing map; FastStochastic is unchanged by x -> c*x+d (c>0); SlowStochastic is unchanged by the same maps; PPO, ROC, EfficiencyRatio, CCI, MFI, OBV are unchanged by c>0 including their division-by-zero cases; for every number type whose negation reverses the comparison Maximum(x) = -Minimum(-x) exactly. ChandelierExit and the float tolerances: pairwise comparison of implementation runs (partial).",
          "Rocq proofs (homogeneity of the exact specifications; uniqueness of extremes under monotone maps; simulation for Max/Min) + bit-exact correspondence + scaled/shifted run comparison on the implementation"),
  "C04": ("Theorems for every number type: reset of any reachable state equals the constructor's state as a record for the 17 indicators without Minimum/Maximum inside (C04_reset_is_new), keeps parameters, is idempotent and a no-op on fresh instances; Minimum/Maximum reset is observationally equal to new on every continuation for every strict total order with top (C04_min_reset_equiv, C04_max_reset_equiv), instantiated for binary64 without NaN/-0.0. Correspondence: histories with NaN/inf/extremes and repeated resets, implementation after reset vs fresh implementation vs model.",
          "Rocq proofs (invariant + record equality; order-theoretic bisimulation for Min/Max) + bit-exact correspondence"),
